@@ -175,12 +175,74 @@ func checkSortJSON(c *fw.Ctx) {
 				if strings.HasPrefix(name, "slices.SortFunc") || strings.HasPrefix(name, "slices.SortStableFunc") || name == "sort.Slice" {
 					sorters++
 					checkKeyComparator(c, fn, fam, call)
+					checkSortUnconditional(c, fn, call)
 				}
 			}
 		}
 	}
-	c.Min("4 raw-emission append sites", appends, 6)
+	c.Min("4 raw-emission append sites", appends, 3)
 	c.Min("5 key-order sort sites", sorters, 1)
+}
+
+// checkSortUnconditional: the sort of the object's entries is not skipped on any path, except
+// under a guard that only looks at the number of entries (fewer than two need no sorting).
+func checkSortUnconditional(c *fw.Ctx, fn *ssa.Function, call ssa.CallInstruction) {
+	rule := "5 key-order"
+	construct := fw.FuncName(fn) + ": the entries are sorted on every path"
+	for _, f := range fw.DomConds(call.Block()) {
+		if fw.IsErrCheck(f) {
+			continue
+		}
+		okGuard := false
+		if b, isB := f.If.Cond.(*ssa.BinOp); isB {
+			if cl, _ := fw.CallOf(b.X); cl != nil && fw.CalleeName(cl) == "builtin.len" {
+				if n, isC := fw.ConstInt(b.Y); isC && n <= 2 {
+					okGuard = true
+				}
+			}
+		}
+		if !okGuard {
+			c.Fail(rule, construct, c.P.Pos(call.Pos()), "the sort only runs under the condition "+f.String()+": whether the output is ordered then depends on something other than the decoded keys (e.g. an already-sorted test on raw spellings)")
+			return
+		}
+	}
+	c.Ok(rule, construct, c.P.Pos(call.Pos()), "no guard other than an entry-count test")
+}
+
+// checkRangeOperand: the integer-range comparison of the enforcement function is made on the
+// float64 value of the number (gjson Num / Float()), never on Int()/Uint(), whose fallback
+// parser wraps modulo 2^64.
+func checkRangeOperand(c *fw.Ctx, fn *ssa.Function) {
+	rule := "7 range-operand"
+	n := 0
+	for _, f := range fw.RegionOf(fn, nil) {
+		for _, b := range f.Blocks {
+			for _, ins := range b.Instrs {
+				bo, ok := ins.(*ssa.BinOp)
+				if !ok {
+					continue
+				}
+				for _, pair := range [][2]ssa.Value{{bo.X, bo.Y}, {bo.Y, bo.X}} {
+					cst, isC := pair[1].(*ssa.Const)
+					if !isC || cst.Value == nil {
+						continue
+					}
+					str := cst.Value.ExactString()
+					if str != "9007199254740991" && str != "-9007199254740991" && str != "9007199254740992" && str != "-9007199254740992" {
+						continue
+					}
+					n++
+					op := pair[0]
+					okOp := isGjsonField(op, "Num")
+					if cl, _ := fw.CallOf(op); cl != nil && fw.CalleeName(cl) == "(github.com/tidwall/gjson.Result).Float" {
+						okOp = true
+					}
+					c.Check(okOp, rule, fw.FuncName(fn)+": the safe-integer range is tested on the number's float value", c.P.Pos(bo.Pos()), "", "the range bound "+str+" is compared with "+fw.Sig(op)+", not with gjson's Num/Float(): Int()/Uint() wrap for literals beyond 64 bits, so out-of-range integers pass")
+				}
+			}
+		}
+	}
+	c.Min(rule+" comparisons with the safe-integer bounds", n, 2)
 }
 
 func isByteSeq(t types.Type) bool {
@@ -299,6 +361,7 @@ func checkEnforceFlag(c *fw.Ctx) {
 		return
 	}
 	c.SawFn(short)
+	checkRangeOperand(c, fn)
 	fam := fw.FamilyOf(fn)
 	// the flag: a *bool alloc in fn captured by a closure
 	var flags []*ssa.Alloc
